@@ -77,10 +77,38 @@ func multisetCheck(c *Case, src string, ctx *xdoc.Node, got SelResult, want xref
 	return true
 }
 
+// longLabelTree: names and values of 33 ... 300 bytes that agree in a long prefix or in a long suffix - attributes of
+// ONE element (their position path is the same: only the label tells them apart), sibling elements, text and comment
+// nodes; an identity key that looks at a bounded part of a label, or hashes it weakly, confuses them.
+func longLabelTree(g *xgen.G) *xdoc.Doc {
+	d := xdoc.NewDoc()
+	r := d.Root.AddElem("", "r", "")
+	stem := "data-analytics-tracking-category-" + strings.Repeat("x", g.Intn(3)*100)
+	tail := "-suffix-shared-by-all-of-these-labels-0123456789"
+	for k := 0; k < 2; k++ {
+		e := r.AddElem("", "e", "")
+		for _, nm := range []string{stem + "primary", stem + "secondary", stem + "primarz", "a" + tail, "b" + tail, stem, stem + "p", "id"} {
+			e.AddAttr("", nm, "", "v")
+		}
+		f := r.AddElem("", stem+"e", "")
+		for i, v := range []string{stem + "1", stem + "2", "1" + tail, "2" + tail} {
+			f.AddAttr("", fmt.Sprintf("k%d", i), "", v) // short names, long values
+			f.AddElem("", stem+fmt.Sprint(i), "").AddText(stem + fmt.Sprint(i%2))
+			f.AddComment(stem + fmt.Sprint(i%2))
+			f.AddText(v)
+		}
+	}
+	return d.Finish()
+}
+
 func c11Pairs(c *Case) {
 	d := hostileTree(c.G())
 	limit := 40
 	if c.Tier == "thorough" {
+		limit = 70
+	}
+	if c.Index%4 == 1 {
+		d = longLabelTree(c.G())
 		limit = 70
 	}
 	if c.Index%4 == 3 {
